@@ -108,6 +108,17 @@ impl Run {
     ) where
         M::Act: Serialize,
     {
+        // detection runs only (seeded/run_parallel.sh sets VERIF_DETECT_ONLY): once an unlisted violation has been
+        // found, the remaining explorations are skipped - the verdict is already "violation". Registered commands
+        // never set it; the evidence then says so (exhaustive = false, cap recorded).
+        if std::env::var("VERIF_DETECT_ONLY").is_ok() {
+            let known = load_known();
+            if self.found.iter().any(|f| !known.iter().any(|k| k.matches(&self.prop, &f.sig))) {
+                self.exhaustive = false;
+                self.caps.push(format!("{}: skipped (VERIF_DETECT_ONLY, a violation was already found)", name));
+                return;
+            }
+        }
         let rep = bfs(model, seeds, lim);
         // determinism self-checks (a divergence is a machinery error, never a verdict)
         if let Some(path) = rep.sample_paths.iter().find(|p| !p.is_empty()) {
